@@ -235,6 +235,10 @@ def const_val(e):
         return ("item", d["item"])
     if "zst" in d:
         return ("zst", d["zst"])
+    if "tyconst" in d:
+        t = d["tyconst"]
+        if isinstance(t, str) and len(t) >= 2 and t[0] == '"' and t[-1] == '"':
+            return t[1:-1]
     return None
 
 
